@@ -451,9 +451,12 @@ fn consume_expr<'i>(
                         }
                     }
                     Rule::insensitive_string => {
-                        let string = unescape(pair.as_str()).expect("incorrect string literal");
+                        // `^` and the string are separate tokens and may be spaced apart.
+                        let string_pair = pair.clone().into_inner().next().unwrap();
+                        let string =
+                            unescape(string_pair.as_str()).expect("incorrect string literal");
                         ParserNode {
-                            expr: ParserExpr::Insens(string[2..string.len() - 1].to_owned()),
+                            expr: ParserExpr::Insens(string[1..string.len() - 1].to_owned()),
                             span: pair.clone().as_span(),
                         }
                     }
